@@ -692,7 +692,9 @@ def check(pid, tier):
 
 
 def _check(rep, replayer, runs, scratch, tier):
+    global TLC_TIMEOUT
     thorough = tier == "thorough"
+    TLC_TIMEOUT = 7200 if thorough else 3000          # a timeout is a MachineryError (exit 2), never a violation
     rng = random.Random(seed() * 7919 + 16)
     workers = int(os.environ.get("VERIF_TLC_WORKERS", "4"))
     rep.rule("a case = one step of one TLC behaviour (operation sequence from a two-object initial store of one family) executed on "
